@@ -10,6 +10,14 @@ TB = ("Trusted base: the chain model of DESIGN.md section 3.1 (bank, staking wit
       "budget F, principals and amount lattice as reported in the evidence file; envelope of DESIGN.md section 4.")
 
 CLAIMED = {
+ "C05": ("5 (C05)", "Start states are all 12 (peg_recovery_fee, er_threshold) configurations x 2 slash depths of a two-pool deployment (plus a 1e15-scaled instance with 0.01% and 50% slashes); every sequence of <= D (3 quick, 5 thorough) fee-path transactions (bond, unbond bSei, convert both directions; amounts 1, half, all, 100, 5000) by two users is executed and each successful one is compared with the exact no-fee amount (no fee at or above the threshold, 0 <= fee <= basis x peg_recovery_fee) and with the post-state peg (bSei backing <= claims + 2 whenever the operation started below 1).",
+         "explicit-state BFS of the real contracts over fee configurations, exact fee recomputation"),
+ "C12": ("5 (C12)", "Exhaustive input enumeration through the two public planning functions: every validator list of length 0..=4 (5 thorough) with delegations 0..=5 (7) in every order, every amount 0..=sum+6, and the same box scaled by 1e6+3, 1e12+7 and ~1e18/(L*V) with +-1 perturbations (~5e5 calls quick, ~4e7 thorough), each under a 2 s non-termination watchdog, each checked for conservation, no stake to validators above the even share, no lift above ceil(share), no push below floor(share), error iff empty list or excessive request.",
+         "bounded-exhaustive input enumeration of the real planning functions (no sampling)"),
+ "C17": ("5 (C17)", "Every tuple of (dispatcher usei balance, kusd balance, stSei bonded, bSei bonded, oracle price over 12 orders of magnitude, keeper rate incl. 0, 1e-18, 1-1e-18, 1) of the stated box inside the 1e18 envelope (6.8e4 tuples quick, ~4e5 thorough, plus a third-swap-denom box) is run through the real SwapToRewardDenom and DispatchRewards entry points on the integrated deployment; offer <= held, stSei share = total x st/(st+b) within stated rounding, keeper gets exactly floor(balance x rate), remainder fully forwarded, nothing kept, no zero-coin send. A BFS over dispatcher configuration updates decides 'keeper rate never above 1'. The three zero-coin call sites are known findings (F1).",
+         "bounded-exhaustive input enumeration through the real entry points on the chain model, plus config-update BFS"),
+ "C20": ("5 (C20)", "BFS from every instantiate message (in-range, boundary 1, 1+1e-18, 2) over every UpdateParams/UpdateConfig message with every presence combination of optional fields and in-range/boundary/out-of-range values, UpdateSwapDenom add/remove/duplicate, UpdateSwapContract, UpdateOracleContract, reward and registry UpdateConfig, by owner and non-owner; the hub parameter space is explored to its fixpoint (about 3.5e6 transitions), the dispatcher to depth 3/4. Every accepted update is compared field by field (absent keeps, present stored, threshold clamped, pause flag as defined), every state is range-checked, the two fixed denoms never change, non-owner updates are rejected.",
+         "explicit-state BFS to fixpoint over the real update handlers, field-by-field oracle"),
  "C01": ("5 (C01)", "Every sequence of <= D unbond/withdraw/time actions (D=5 quick, 7 thorough; plus bond/convert in thorough) with <= F slashing-of-unbonding, bonded-slash and rogue-transfer deviations is executed for 2-3 users and both tokens, plus a deeper one-token 'dust group' scenario (D=6/10) that puts zero-valued batches into a slashed release group. State oracle: liquid balance >= sum of released claims. Step oracles: a release is valued <= the coins that arrived (and >= arrived minus dust when clean), a withdraw pays exactly the recorded share in one send and removes exactly the paid claims. Probe in every distinct state: all users with matured claims withdraw on clones in every order (identical payouts, refusals only for sub-unit claims, second withdraw pays nothing).",
          "explicit-state BFS of the real contracts with fault budget; state/step oracles plus exhaustive withdraw-order probes on clones of every state"),
  "C07": ("5 (C07)", "Every sequence of <= D unbonds (cw20 Send and allowance-based SendFrom, both tokens mixed in a batch, 3 amounts), withdraws, forged Receive hooks and time jumps for 2-3 users plus a spender. A reference claim ledger carried inside the state key is compared in every distinct state with UnbondRequests of every known address, CurrentBatch totals, AllHistory totals (ledger + paid == history) and every AllHistory page; every accepted unbond burns exactly the tokens sent and credits only the cw20 sender within [amount - peg fee, amount].",
